@@ -1,10 +1,169 @@
 import Driver.Common
-/-! Driver ops of this group; `handle op args` returns `none` for ops it does not know. -/
+import GoSSE.Model.Finite
+import GoSSE.Model.Valid
+/-!
+Driver ops of the replayers (C08, C09, C18). One case = one whole history:
+
+  FINITE  <N> <auto 0/1> <op;op;…>          FINITES … : the same, plus the slot report (C18);
+                                            FINITEF/VALIDF: as …S, the Go side also confirms with finalizers
+  VALID   <ttl> <gcInterval|d> <auto> <op;op;…>   VALIDS …
+
+ops (fields separated by `:`; byte strings hex, `-` = empty, topic lists comma separated, `_` = ""):
+  P:<topics>:<id|~>                         Put; `~` = no ID; the message's tag is the op's index
+  R:<topics>:<lastID|~>:<failAt|->:<flushFails 0/1>   Replay
+  G                                         GC (ValidReplayer)
+  T:<delta>                                 the clock advances by delta (ValidReplayer)
+
+results, joined by `;`:
+  P=<id> | P!NOTOPIC | P!NOID | P!HASID ;  R=<S<tag>.<id>,…,F | ->/<nil|SEND|FLUSH> ;  G ;  T
+with the slot report appended to every result in the …S variants:
+  model `@<head>.<tail>.<count>.<len>{sorted tags referenced from any slot}`, specification `{sorted stored tags}`
+-/
 namespace Driver.ReplayD
-open GoSSE Driver
+open GoSSE GoSSE.Spec GoSSE.Model Driver
+
+inductive Op where
+  | put (topics : List Bytes) (id : EventID)
+  | replay (sub : Sub)
+  | gc
+  | tick (d : Int)
+  | bad
+
+def parseID (s : String) : EventID := if s == "~" then none else some (unhex s)
+
+def parseOp (s : String) : Op :=
+  match s.splitOn ":" with
+  | ["P", t, i] => .put (unhexList t) (parseID i)
+  | ["R", t, i, k, f] => .replay { lastEventID := parseID i, topics := unhexList t, failAt := k.toNat?, flushFails := boolOf f }
+  | ["G"] => .gc
+  | ["T", d] => match parseInt? d with | some d => .tick d | none => .bad
+  | _ => .bad
+
+def parseOps (s : String) : List Op := if s == "-" then [] else (s.splitOn ";").map parseOp
+
+def showPutErr : PutErr → String
+  | .noTopic => "P!NOTOPIC" | .noID => "P!NOID" | .hasID => "P!HASID"
+
+def showPut : Except PutErr Entry → String
+  | .ok e => "P=" ++ (match e.id with | some v => hex v | none => "~")
+  | .error e => showPutErr e
+
+def showCall : Call → String
+  | .send e => s!"S{e.msg}.{match e.id with | some v => hex v | none => "~"}"
+  | .flush => "F"
+
+def showReplay (r : ReplayOut) : String :=
+  let c := if r.calls.isEmpty then "-" else ",".intercalate (r.calls.map showCall)
+  let e := match r.err with | .nil => "nil" | .send => "SEND" | .flush => "FLUSH"
+  s!"R={c}/{e}"
+
+def insertSorted (x : Nat) : List Nat → List Nat
+  | [] => [x]
+  | y :: t => if x < y then x :: y :: t else if x = y then y :: t else y :: insertSorted x t
+
+def showTags (l : List Nat) : String :=
+  "{" ++ ",".intercalate ((l.foldl (fun acc x => insertSorted x acc) []).map toString) ++ "}"
+
+def showSlots (q : Queue) : String :=
+  s!"@{q.head}.{q.tail}.{q.count}.{q.buf.length}" ++ showTags (q.buf.filterMap fun s => s.map (·.msg))
+
+def join (l : List String) : String := if l.isEmpty then "-" else ";".intercalate l
+
+/-! ### FiniteReplayer -/
+
+def finiteModel (slots : Bool) (f : Finite) : Nat → List Op → List String → String
+  | _, [], acc => join acc.reverse
+  | k, op :: rest, acc =>
+    let fin (r : String) (f : Finite) := finiteModel slots f (k + 1) rest ((if slots then r ++ showSlots f.buf else r) :: acc)
+    match op with
+    | .put t i => match f.put k i t with
+      | .panic => "PANIC"
+      | .ok (r, f') => fin (showPut r) f'
+    | .replay sub => match f.replay sub with
+      | .panic => "PANIC"
+      | .ok r => fin (showReplay r) f
+    | .gc => fin "G" f
+    | .tick _ => fin "T" f
+    | .bad => "bad-op"
+
+def finiteSpec (slots : Bool) (n : Nat) (auto : Bool) (s : State) : Nat → List Op → List String → String
+  | _, [], acc => join acc.reverse
+  | k, op :: rest, acc =>
+    let fin (r : String) (s : State) := finiteSpec slots n auto s (k + 1) rest ((if slots then r ++ showTags (s.log.map (·.msg)) else r) :: acc)
+    match op with
+    | .put t i => let r := Spec.put (some n) s k i t 0; fin (showPut r.1) r.2
+    | .replay sub => fin (showReplay (replayOut auto (fun _ => true) s.log sub)) s
+    | .gc => fin "G" s
+    | .tick _ => fin "T" s
+    | .bad => "bad-op"
+
+def finite (slots : Bool) (args : List String) : String × String :=
+  match args with
+  | n :: a :: ops :: _ =>
+    match n.toNat? with
+    | none => ("bad-args", "bad-args")
+    | some n =>
+      let auto := boolOf a
+      let ops := parseOps ops
+      match newFinite n auto with
+      | none => ("NEWERR", if n < 2 then "NEWERR" else "?")
+      | some f => (finiteModel slots f 0 ops [], if n < 2 then "NEWERR" else finiteSpec slots n auto (.init auto) 0 ops [])
+  | _ => ("bad-args", "bad-args")
+
+/-! ### ValidReplayer -/
+
+def validModel (slots : Bool) (v : Valid) (now : Int) : Nat → List Op → List String → String
+  | _, [], acc => join acc.reverse
+  | k, op :: rest, acc =>
+    let fin (r : String) (v : Valid) (now : Int) :=
+      validModel slots v now (k + 1) rest ((if slots then r ++ showSlots v.messages else r) :: acc)
+    match op with
+    | .put t i => match v.put now k i t with
+      | .panic => "PANIC"
+      | .ok (r, v') => fin (showPut r) v' now
+    | .replay sub => match v.replay now sub with
+      | .panic => "PANIC"
+      | .ok r => fin (showReplay r) v now
+    | .gc => match v.gc now with
+      | .panic => "PANIC"
+      | .ok v' => fin "G" v' now
+    | .tick d => fin "T" v (now + d)
+    | .bad => "bad-op"
+
+def validSpec (slots : Bool) (ttl gci : Int) (auto : Bool) (v : VState) (now : Int) : Nat → List Op → List String → String
+  | _, [], acc => join acc.reverse
+  | k, op :: rest, acc =>
+    let fin (r : String) (v : VState) (now : Int) :=
+      validSpec slots ttl gci auto v now (k + 1) rest ((if slots then r ++ showTags (v.st.log.map (·.msg)) else r) :: acc)
+    match op with
+    | .put t i => let r := vput ttl gci v now k i t; fin (showPut r.1) r.2 now
+    | .replay sub => fin (showReplay (replayOut auto (fun e => decide (e.exp > now)) v.st.log sub)) v now
+    | .gc => fin "G" (vgc v now) now
+    | .tick d => fin "T" v (now + d)
+    | .bad => "bad-op"
+
+def valid (slots : Bool) (args : List String) : String × String :=
+  match args with
+  | ttl :: g :: a :: ops :: _ =>
+    match parseInt? ttl with
+    | none => ("bad-args", "bad-args")
+    | some ttl =>
+      let gci : Option Int := if g == "d" then none else parseInt? g
+      let auto := boolOf a
+      let ops := parseOps ops
+      match newValid ttl auto gci with
+      | none => ("NEWERR", if ttl ≤ 0 then "NEWERR" else "?")
+      | some v =>
+        (validModel slots v 0 0 ops [],
+         if ttl ≤ 0 then "NEWERR" else validSpec slots ttl (gci.getD (Int.tdiv ttl 4)) auto (.init auto) 0 0 ops [])
+  | _ => ("bad-args", "bad-args")
 
 def handle (op : String) (args : List String) : Option (String × String) :=
-  match op, args with
-  | _, _ => none
+  match op with
+  | "FINITE" => some (finite false args)
+  | "FINITES" | "FINITEF" => some (finite true args)
+  | "VALID" => some (valid false args)
+  | "VALIDS" | "VALIDF" => some (valid true args)
+  | _ => none
 
 end Driver.ReplayD
